@@ -2084,7 +2084,7 @@ namespace awkward {
         Identities::none(),
         parameters_,
         index_,
-        content_.get()->fillna(value));
+        content_.get()->fillna(value)).get()->simplify_optiontype();
     }
   }
 
@@ -2124,7 +2124,7 @@ namespace awkward {
         Identities::none(),
         parameters_,
         index_,
-        content_.get()->rpad(target, posaxis, depth));
+        content_.get()->rpad(target, posaxis, depth)).get()->simplify_optiontype();
     }
   }
 
@@ -2165,7 +2165,7 @@ namespace awkward {
         Identities::none(),
         parameters_,
         index_,
-        content_.get()->rpad_and_clip(target, posaxis, depth));
+        content_.get()->rpad_and_clip(target, posaxis, depth)).get()->simplify_optiontype();
     }
   }
 
